@@ -215,6 +215,8 @@ def on_scopes(p, r, exc, acc):
         acc.candidate(kind="name-resolution", input=dict(flags=f), detail="rendered %r, documented order gives %r" % (r["out"], "[%s]" % want))
     if not r["unchanged"]:
         acc.candidate(kind="caller-data-altered", input=dict(flags=f), detail="the dict passed to render() was modified")
+    elif r["out"] == "[%s]" % want:
+        acc.good("name-resolution", dict(flags=f))
     acc.sample(dict(flags=f, output=r["out"]))
 
 
@@ -289,6 +291,8 @@ def on_reserved(p, r, exc, acc):
     acc.vcs += 1
     if r["res"] != want:
         acc.candidate(kind="reserved-name", input=dict(name=r["name"], where=r["where"], enable_loop=r["enable_loop"]), detail="%s, expected %s" % (r["res"], want))
+    else:
+        acc.good("reserved-name", dict(name=r["name"], where=r["where"], enable_loop=r["enable_loop"]))
     acc.sample(dict(name=r["name"], where=r["where"], enable_loop=r["enable_loop"], result=r["res"]))
 
 
@@ -340,6 +344,8 @@ def on_defnames(p, r, exc, acc):
     want = defnames_reference(r["f"])
     if r["out"] != want:
         acc.candidate(kind="def-name-resolution", input=dict(defnames=r["f"]), detail="rendered %r, Python's scoping gives %r" % (r["out"], want))
+    else:
+        acc.good("def-name-resolution", dict(defnames=r["f"]))
     acc.sample(dict(flags=r["f"], output=r["out"]))
 
 
@@ -435,9 +441,11 @@ def run(check, tier):
     for j in jobs:
         driver.register(j[0], j[1], j[2])
     cands = []
+    goods = []
     for name, _h, _o, title, bounds, req in jobs:
         st, acc = driver.explore(name, time_limit=1200)
         check.section(title, st, acc, bounds, tags_required=req)
         cands.extend(acc.candidates)
-    check.confirm(cands, make_replay, classify, max_confirm=24)
+        goods.extend(acc.goods)
+    check.confirm(cands, make_replay, classify, max_confirm=24, goods=goods)
     driver.close_pool()
